@@ -606,7 +606,7 @@ func (x *Exec) contractCall(fr *Frame, st *State, callee *ssa.Function, fc *Func
 // havocked, the postconditions are assumed. callee is nil for interface methods (names/ptypes describe the
 // receiver, called "self", followed by the method's parameters).
 func (x *Exec) contractCallSig(fr *Frame, st *State, name string, names []string, ptypes []types.Type, sig *types.Signature, callee *ssa.Function, fc *FuncContract, pkg *PkgInfo, args []Value, pos token.Pos, resT types.Type) Value {
-	env := &CEnv{x: x, fr: fr, st: st, pkg: pkg, vars: map[string]Value{}, mode: x.m()}
+	env := &CEnv{x: x, fr: fr, st: st, pkg: pkg, vars: map[string]Value{}, mode: x.m(), calleeEnv: true}
 	for n, v := range x.closureBinds {
 		env.vars[n] = v
 	}
@@ -628,7 +628,11 @@ func (x *Exec) contractCallSig(fr *Frame, st *State, name string, names []string
 		g := env.evalBool(rq.Expr)
 		o := x.vc.oblige("pre@"+name, Implies(st.Reach, g), x.posOf(fr.fn, pos), fmt.Sprintf("precondition %d of %s: %s", k+1, name, rq.Src))
 		o.Clause = rq.Src
-		x.vc.assume(Implies(st.Reach, g))
+		if fr.top.fc == nil || !fr.top.fc.NoPre {
+			// (with "nopre" the precondition is not proved, so it may not be assumed either: the
+			// callee's postconditions are then used as if its precondition held)
+			x.vc.assume(Implies(st.Reach, g))
+		}
 	}
 	canon := true
 	for _, a := range args {
@@ -661,7 +665,7 @@ func (x *Exec) contractCallSig(fr *Frame, st *State, name string, names []string
 	} else {
 		res = x.havocValue(st, resT, "r."+name)
 	}
-	post := &CEnv{x: x, fr: fr, st: st, old: &pre, pkg: pkg, vars: env.vars, mode: x.m(), hasResult: true, result: res, sig: sig}
+	post := &CEnv{x: x, fr: fr, st: st, old: &pre, pkg: pkg, vars: env.vars, mode: x.m(), hasResult: true, result: res, sig: sig, calleeEnv: true}
 	if fc.Where != nil {
 		post.whereExpr = fc.Where.Expr
 	}
